@@ -83,6 +83,24 @@ def generate(rng, tier, focus):
                 if rng.random() < 0.3:
                     p = scen.rand_chain(rng, p, 1, names=["map", "filter", "take", "skip"])
                 cases.append((scn(conns=[[ck, ["repeat", v]]], handles=1, script_=[sub(0, p)]), {"k": "shared-unbounded"}))
+    # unbounded synchronous producers (repeat, from_iter over an endless iterator) cut by an operator that has all it needs, directly
+    # and behind further operators: subscribe() must return
+    for _ in range(12 if thorough else 3):
+        for srcp in (["repeat", rng.choice([1, 2])], ["from_iter_repeat", rng.choice([1, 2])]):
+            for cut in (["take", [rng.choice([1, 2, 3])]], ["first", []], ["element_at", [rng.choice([1, 2])]], ["take_while", [["false"]]],
+                        ["contains", [srcp[1]]], ["all", [["false"]]], ["take_until", None], ["amb", None]):
+                p = srcp
+                if rng.random() < 0.4:
+                    p = scen.rand_chain(rng, p, 1, names=["map", "filter", "scan", "tap", "distinct_until_changed", "skip"])
+                    if "filter" in sx.dumps(p) or "distinct_until_changed" in sx.dumps(p):
+                        p = srcp       # (an operator that may drop every item of a constant stream spins by design)
+                if cut[0] == "take_until":
+                    q = ["op", "take_until", [], p, ["just", 1]]
+                elif cut[0] == "amb":
+                    q = ["op", "amb", [], ["just", 5], p]
+                else:
+                    q = ["op", cut[0], cut[1], p]
+                cases.append((scn(handles=1, script_=[sub(0, q)]), {"k": "unbounded-cut"}))
     # connectables over a hot source
     for _ in range(60 if thorough else 12):
         for ck in ["publish", "refcount", "replay"]:
